@@ -78,3 +78,36 @@ def tp_text(g):
 
 def codes(s):
     return [ord(c) for c in s]
+
+
+def tp_record_text(r):
+    """extended complete text of a spec-level time point record (whole seconds or decimal seconds; offset always written)."""
+    y = r["y"]
+    if r.get("xd"):
+        ys = ("-" if y < 0 else "+") + "%0*d" % (4 + r["xd"], abs(y))
+    else:
+        ys = "%04d" % y
+    if r["rep"] == "cal":
+        d = "%s-%02d-%02d" % (ys, r["a"], r["b"])
+    elif r["rep"] == "ord":
+        d = "%s-%03d" % (ys, r["a"])
+    else:
+        d = "%s-W%02d-%d" % (ys, r["a"], r["b"])
+    t = "%02d:%02d:%02d" % (r["hh"], max(r["mi"], 0), max(r["ss"], 0))
+    if r.get("dec"):
+        t += "," + r["dec"]
+    return d + "T" + t + zone_text(r["zh"], r["zm"], "hh:mm")
+
+
+def dur_desc_text(d):
+    neg = any(v < 0 for v in d.values())
+    a = {k: abs(v) for k, v in d.items()}
+    if "w" in a:
+        s = "P%dW" % a["w"]
+    else:
+        s = "P" + "".join("%d%s" % (a[k], u) for k, u in (("y", "Y"), ("mo", "M"), ("d", "D")) if a.get(k))
+        t = "".join("%d%s" % (a[k], u) for k, u in (("h", "H"), ("mi", "M"), ("s", "S")) if a.get(k))
+        s += ("T" + t) if t else ""
+        if s == "P":
+            s = "P0Y"
+    return ("-" if neg else "") + s
